@@ -406,6 +406,13 @@ def add_special_methods(prog, rng, backend):
             add(host, op, pick(), ("ref", None), [("o", me)], ("obox", host.name, False))
         for op in rng.sample(["add_assign", "sub_assign", "mul_assign", "div_assign"], rng.randint(0, 2)):
             add(host, op, pick(), ("mut", None), [("o", me)], ("unit",))
+    if sup["arithmetic"] and rng.random() < 0.4:
+        # arithmetic on value types too (enums and structs take the operands by value); the *_assign forms are for opaques only
+        vts = [t for t in prog.types() if t.kind in ("enum", "struct") and not t.lifetimes]
+        if vts:
+            vt = rng.choice(vts)
+            for op in rng.sample(["add", "sub", "mul", "div"], rng.randint(1, 2)):
+                add(vt, op, pick(), ("val",), [("o", (vt.kind, vt.name))], (vt.kind, vt.name))
     if sup["indexing"] and rng.random() < 0.6:
         add(host, "indexer", pick(), ("ref", None), [("i", ("prim", "usize"))], ("opt", ("prim", rng.choice(["u8", "f64", "i32"])), "std") if sup["option"] else ("prim", "u8"))
     if sup["iterators"] and sup["iterables"] and sup["option"] and rng.random() < 0.7:
